@@ -169,6 +169,11 @@ def _scenarios():
     sc.append(("two-outputs-second-pending", {}, {"O1": (True, True, False, "same", {"info": [OK]}),
                                                   "O2": (True, True, False, "same", {"info": [FAIL, FAIL, OK]})}, [],
                {"push_data": {"O1": "DATA", "O2": "DATA"}}))
+    # a timed and a static output (whose exchanged info carries no time) on one component, declared in either order
+    sc.append(("out-timed-then-static", {}, {"O1": (True, True, False, "same", {"info": [OK]}), "O2": (True, True, True, "none", {"info": [OK]})}, [],
+               {"push_data": {"O1": "DATA", "O2": "DATA"}}))
+    sc.append(("out-static-then-timed", {}, {"O1": (True, True, True, "none", {"info": [OK]}), "O2": (True, True, False, "same", {"info": [OK]})}, [],
+               {"push_data": {"O1": "DATA", "O2": "DATA"}}))
     # never completing peer
     sc.append(("stuck", {"A": (True, {"exchange_info": [FAIL]})}, {}, ["A"], {}))
     # data for the output arrives only in a later call
@@ -185,7 +190,7 @@ def r11_r12_connect(repo, sink):
         it = _CH(repo)
         it.order.name(start, "t0", 0)
         it.order.name(later, "t1", 1)
-        outs2 = {n: (h, p, s, start if t == "same" else later, sc) for n, (h, p, s, t, sc) in outs.items()}
+        outs2 = {n: (h, p, s, start if t == "same" else None if t == "none" else later, sc) for n, (h, p, s, t, sc) in outs.items()}
         try:
             me, inputs, outputs = _build(repo, it, ins, outs2, pull, start)
         except (Raised, Undecided) as exc:
